@@ -145,3 +145,15 @@ chk("C03", "model_checking",
     "configuration are excluded.",
     "TLA+ value-space spec + TLC; bounded-exhaustive pairwise catalogue enumeration through real client and server; trace validation of random structures",
     "DESIGN.md 3 (C03)", "tlc+harness/cmd/respspace")
+
+chk("C02", "model_checking",
+    "CmdSpace.tla is the written-down value space of every command the client can issue and the server implements (LOGIN, CREATE, DELETE, RENAME, SUBSCRIBE, LIST with "
+    "select/return options, STATUS, APPEND, SELECT/EXAMINE, UNSELECT/CLOSE, FETCH, STORE, SEARCH with RETURN options, COPY, MOVE, EXPUNGE, ENABLE, NAMESPACE, IDLE, UID forms) on "
+    "a configuration state machine (rev1 / rev1+rev2 / LITERAL+, ENABLE UTF8=ACCEPT / IMAP4rev2: 8 reachable configurations) together with Norm, the semantic normal form "
+    "(every clause cites the RFC or doc sentence). TLC checks Norm/catalogue consistency and enumerates every command instance (7.6k quick, 24.7k thorough); each is issued "
+    "through a real imapclient.Client to a real imapserver whose stub session records what it received; TLC judges each recorded observation, and 800/12000 random larger ones, "
+    "with Norm(received) = Exp(cfg, sent).",
+    "The state machine is thin (configuration only); the substance is the explicit value space and Norm. Byte coverage is by class representatives plus random strings. The "
+    "harness has no oracle (binding shown by corrupted observations being rejected). Commands outside the server's feature set (SORT, THREAD, METADATA, QUOTA, CONDSTORE, SPECIAL-USE options) are excluded by the property's quantifier.",
+    "TLA+ value-space + normal-form spec on a configuration machine; TLC enumeration through real client and server; TLC judges recorded observations",
+    "DESIGN.md 3 (C02)", "tlc+harness/cmd/cmdspace")
